@@ -106,9 +106,11 @@ def tgt_side(tags):
     return sorted(tuple(t) for t in tags if t[0] != "src" or t[1].startswith("mirror/"))
 
 
-def drift_of(scn, events):
+def drift_of(scn, events, meta=None):
     """compare what the design predicted for every run with what the binary did"""
     out = []
+    meta = meta or {}
+    run_steps = [st for st in scn["steps"] if st["op"] == "run"]
     pred = scn.get("pred", [])
     ends = [e for e in events if e["ev"] == "end"]
     nputs = []
@@ -123,6 +125,18 @@ def drift_of(scn, events):
     if len(pred) != len(ends):
         return ["runs"]
     for i, (p, e) in enumerate(zip(pred, ends)):
+        if i < len(run_steps) and run_steps[i].get("fault"):
+            # a run with a scripted fault: the design counts requests per position of its automaton, the
+            # binary per http request - when both (or neither) met the fault the exit status is compared
+            real_hit = bool(meta.get("run%d" % (i + 1), {}).get("fault", {}).get("hit"))
+            if real_hit or p.get("fhit"):
+                if real_hit and p.get("fhit"):
+                    if p["exit"] != (0 if e["exit"] == 0 else 1):
+                        out.append("fault-exit")
+                    out.append("+fault-both")
+                else:
+                    out.append("+fault-one")
+                break       # the later runs start from a state the design did not predict
         if p["exit"] != (0 if e["exit"] == 0 else 1):
             out.append("exit")
         ps, os_ = set(tuple(x) for x in p["tags"]), set(tgt_side(e["tags"]))
@@ -220,6 +234,9 @@ def run(ctx):
     scn_file = ctx.path("c18", "scn.jsonl")
     with open(scn_file, "w") as f:
         for s in run_scns:
+            for st in s["steps"]:
+                if st.get("fault"):
+                    st["fault"].pop("hit", None)
             f.write(json.dumps({k: s[k] for k in ("id", "conf", "src", "tgt", "steps", "env")}) + "\n")
 
     # 3. the real binary
@@ -235,10 +252,17 @@ def run(ctx):
     kinds = set()
     extra_repairs = 0
     env_seen = {}
+    timeouts = []
+    faults = {"armed": 0, "hit": 0, "hit_exit0": 0, "hit_exit_nonzero": 0, "by_class_hit": {}, "by_kind_hit": {}, "by_entry_type_hit": {},
+              "design_agrees_on_hit": 0, "design_differs_on_hit": 0}
     for t in load_traces(out):
         m = t.get("meta", {})
         if "timeout" in m:
-            raise vlib.ToolError("regsync did not finish: %s (%s)" % (m["timeout"], t["id"]))
+            # a run that hangs is a tool problem, never a verdict - but it must not hide what the other
+            # scenarios show: the trace is set aside and the error raised after validation if nothing
+            # was rejected (a change that makes failing runs hang usually also breaks runs that end)
+            timeouts.append("%s (%s)" % (m["timeout"], t["id"]))
+            continue
         if "noreq" in m:
             raise vlib.ToolError("regsync never reached the model registries: %s (%s)" % (m["noreq"], t["id"]))
         s = by_id[t["id"]]
@@ -249,11 +273,26 @@ def run(ctx):
             if e["ev"] == "end":
                 runs += 1
                 modes[e["mode"]] = modes.get(e["mode"], 0) + 1
+        for k, v in m.items():
+            fr = v.get("fault") if isinstance(v, dict) else None
+            if fr:
+                faults["armed"] += 1
+                if fr["hit"]:
+                    faults["hit"] += 1
+                    faults["hit_exit0" if v["exit"] == 0 else "hit_exit_nonzero"] += 1
+                    for key, val in (("by_class_hit", fr["reg"] + ":" + fr["cls"]), ("by_kind_hit", fr["kind"]),
+                                     ("by_entry_type_hit", "+".join(sorted({e["type"] for e in s["conf"]["entries"]})))):
+                        faults[key][val] = faults[key].get(val, 0) + 1
         if not s.get("nodrift"):
-            d = drift_of(s, t["events"])
+            d = drift_of(s, t["events"], m)
             if "+repaired" in d:
                 extra_repairs += 1
                 d = [x for x in d if x != "+repaired"]
+            if "+fault-both" in d:
+                faults["design_agrees_on_hit"] += 1
+            if "+fault-one" in d:
+                faults["design_differs_on_hit"] += 1
+            d = [x for x in d if not x.startswith("+fault")]
             if d:
                 for k in set(d):
                     drift[k] = drift.get(k, 0) + 1
@@ -262,7 +301,8 @@ def run(ctx):
         c = s["conf"]
         kinds.add(json.dumps([c["parallel"] > 0, [[e["type"], len(e["allow"]), len(e["deny"]), e["platform"], e["mts"], e["backup"],
                                                    e["referrers"], e["digestTags"], e["fastCheck"], e["force"]] for e in c["entries"]],
-                              [st["mode"] or st["op"] for st in s["steps"]]]))
+                              [st["mode"] or st["op"] for st in s["steps"]],
+                              [[st["fault"]["reg"], st["fault"]["cls"], st["fault"]["kind"]] for st in s["steps"] if st.get("fault")]]))
         for k, v in s["env"].items():
             env_seen.setdefault(k, {})
             env_seen[k][str(v)] = env_seen[k].get(str(v), 0) + 1
@@ -287,6 +327,11 @@ def run(ctx):
         ctx.report(sig, what, {"scenario": {k: t["scenario"][k] for k in ("id", "conf", "src", "tgt", "steps", "env")},
                                "events": t["events"], "rejected_at": r["line"], "stderr": t["stderr"],
                                "cmd": "tools/check C18 --replay <this file>"})
+
+    if timeouts:
+        if not ctx.violations:
+            raise vlib.ToolError("regsync did not finish: %s" % "; ".join(timeouts[:3]))
+        vlib.log("C18: %d scenario(s) set aside, regsync did not finish: %s" % (len(timeouts), "; ".join(timeouts[:3])))
 
     # 5. binding demos: corrupted copies of an accepted trace must be rejected
     if not ctx.violations:
@@ -354,9 +399,9 @@ def run(ctx):
         "finding_class_scenarios": {"alt_filter": n_alt, "platform_force": n_force, "validated_separately": len(suspects),
                                   "respelled_with_group": respelled, "not_run": len(scns) - len(run_scns)},
         "design_prediction_exact": exact, "design_drift": drift, "completed_beyond_prediction": extra_repairs,
-        "environment_values_run": env_seen, "design_drift_samples": DRIFT_SAMPLES[:5],
+        "environment_values_run": env_seen, "scripted_faults": faults, "design_drift_samples": DRIFT_SAMPLES[:5],
         "expected_counterexamples": known_cex,
-        "rejected": len(rejected),
+        "rejected": len(rejected), "runs_not_finished": len(timeouts),
         "binary": "regsync built from the tree under test (go build -tags verif ./cmd/regsync), exec'ed against "
                   "zzverif/simreg served on 127.0.0.1 listeners",
         "entry_points": ["regsync once", "regsync once --missing", "regsync check"],
@@ -366,7 +411,11 @@ def run(ctx):
         "(top level alternation, group, class / quantifier forms); the spelling is self-checked against the subset",
         "targets and backup names of different entries are disjoint (two entries sharing a backup name race when "
         "parallel >= 2: C18_mc_sharedbk.cfg)",
-        "the initial target populations are closure complete (what a registry guarantees); no faults are injected",
+        "the initial target populations are closure complete (what a registry guarantees)",
+        "at most one scripted fault per run (an error status for the nth request of one class, lasting for that resource; "
+        "404 / 410 / 416 / 403 / 400 / 405, transient 500 / reset), on the mirror path only: the HEAD of the target tag and "
+        "the backup copy are never faulted (the code reads the first as `absent` and only warns about the second, by design); "
+        "no cancellation, no truncated bodies (C04)",
         "with a platform configured a target that already holds the source index and is left alone counts as mirrored",
         "`once --missing` runs are held to untouched / backup / check obligations only",
         "interleavings of parallel entries are explored exhaustively in the design spec only; real runs take the "
